@@ -226,6 +226,9 @@ def to_coq(q, dbg=True):
     elif k == "timer": b = "OR (e_timer %s %s %s %s %d %d)" % (D, c_sb(q[1], h), c_rb(q[2], h), c_rb(q[3], h), q[4], q[5])
     elif k == "pp": b = "OR (e_pp %s %s %s %s %d)" % (D, c_sb(q[1], h), c_rb(q[2], h), c_rb(q[3], h), q[4])
     elif k == "chain": b = "OR (e_chain %s %s %s %s %s %s %d)" % (D, c_sb(q[1], h), c_rb(q[2], h), c_rb(q[3], h), c_rb(q[4], h), c_rb(q[5], h), q[6])
+    elif k == "poisson_check":
+        # (poisson_check RN RD EN ED TN TD DELTA N): the certified band test of Model/Poisson.v
+        b = "ON (if Poisson.poisson_check %s then 1 else 0)" % " ".join("%d%%N" % x for x in q[1:9])
     elif k in ("rr", "bw"):
         b = "OR (e_%s %s %s %s [%s] %d)" % (k, D, c_sb(q[1], h), c_wl(q[2], h), "; ".join(nat(i) for i in q[3]), q[4])
     else:
@@ -287,7 +290,7 @@ def oracle_bin(profile):
     return os.path.join(HARNESS, "target", profile, "rta_oracle")
 
 # ----------------------------------------------------------------------------- running the oracle
-def run_oracle(profile, cases, tag, stall_s=20.0):
+def run_oracle(profile, cases, tag, stall_s=6.0, max_timeouts=6):
     """cases: list of (id, query-ast).  Returns {id: canonical result}.  A case that makes no
     progress for stall_s seconds is recorded as ('timeout',) and the oracle restarted after it."""
     os.makedirs(WORK, exist_ok=True)
@@ -298,7 +301,12 @@ def run_oracle(profile, cases, tag, stall_s=20.0):
     res = {}
     start = 0
     n = len(cases)
+    ntimeouts = 0
     while start < n:
+        if ntimeouts >= max_timeouts:
+            # the implementation hangs on many cases: every hang costs stall_s seconds; stop and mark the rest
+            for cid, _ in cases[start:]: res[cid] = ("skipped",)
+            break
         p = subprocess.Popen([oracle_bin(profile), path, str(start)], stdout=subprocess.PIPE,
                              stderr=subprocess.DEVNULL, text=True, bufsize=1)
         got = 0
@@ -326,6 +334,7 @@ def run_oracle(profile, cases, tag, stall_s=20.0):
             # the case at index start+got hung or crashed the process
             cid = cases[start + got][0]
             res[cid] = ("timeout",) if p.returncode in (-9, 137) else ("crash",)
+            if res[cid] == ("timeout",): ntimeouts += 1
             start = start + got + 1
         else:
             start = start + got
@@ -333,7 +342,7 @@ def run_oracle(profile, cases, tag, stall_s=20.0):
     return res
 
 # ----------------------------------------------------------------------------- running the model
-HEADER = ("From RTA.Model Require Import Base Arrival Wcet Demand Supply FixedPoint Analyses Ros2 Eval.\n"
+HEADER = ("From RTA.Model Require Poisson.\nFrom RTA.Model Require Import Base Arrival Wcet Demand Supply FixedPoint Analyses Ros2 Eval.\n"
           "Set Printing Width 1000000. Set Printing Depth 100000000.\n")
 
 def run_model(cases, tag, per_case_timeout=20, dbg=True, shards=NCPU, extra_header=""):
